@@ -322,13 +322,46 @@ class AST2SCFGTransformer:
         recursive function is commonly called 'codegen'.
 
         """
-        for node in tree:
+        for i, node in enumerate(tree):
             self.handle_ast_node(node)
             # Anything that follows a return, break or continue in the same
             # suite is unreachable and must not end up in the current block,
             # as that would hide the terminator from the sealing rules.
             if isinstance(node, (ast.Return, ast.Break, ast.Continue)):
+                # The unreachable statements are not emitted, but they must
+                # still be refused if they are not supported.
+                for dead in tree[i + 1 :]:
+                    self.check_supported(dead)
                 break
+
+    def check_supported(self, node: type[ast.AST] | ast.stmt) -> None:
+        """Refuse unsupported statements in code that is not emitted."""
+        for stmt in ast.walk(node):  # type: ignore
+            if isinstance(stmt, ast.stmt) and not isinstance(
+                stmt,
+                (
+                    ast.AugAssign,
+                    ast.Assign,
+                    ast.Expr,
+                    ast.Return,
+                    ast.Break,
+                    ast.Continue,
+                    ast.Pass,
+                    ast.If,
+                    ast.While,
+                    ast.For,
+                ),
+            ):
+                raise NotImplementedError(
+                    f"Node type {stmt} not implemented"
+                )
+            if isinstance(stmt, ast.For) and not isinstance(
+                stmt.target, ast.Name
+            ):
+                raise NotImplementedError(
+                    "for-loop targets other than a plain name are not "
+                    "implemented"
+                )
 
     def handle_ast_node(self, node: type[ast.AST] | ast.stmt) -> None:
         """Dispatch an AST node to handle."""
